@@ -553,13 +553,13 @@ def run_op(op, env, extra):
         return stix2.parse(env[op["arg"]], allow_custom=op.get("allow_custom", False), version=op.get("version")), extra, ()
     if o == "parse_file":
         import io
-        return stix2.parse(io.StringIO(json.dumps(env[op["arg"]])), allow_custom=op.get("allow_custom", False),
+        return stix2.parse(io.StringIO(json.dumps(env[op["arg"]], default=str)), allow_custom=op.get("allow_custom", False),
                            version=op.get("version")), extra, ()
     if o == "bundle_dict":
         # a bundle given as a plain dict around caller-held members
         return {"type": "bundle", "id": op["id"], "objects": env[op["arg"]]}, extra, ()
     if o == "parse_text":
-        text = json.dumps(env[op["arg"]])
+        text = json.dumps(env[op["arg"]], default=str)
         return stix2.parse(text, allow_custom=op.get("allow_custom", False), version=op.get("version")), extra, ()
     if o == "parse_observable":
         vr = env[op["valid_refs"]] if op.get("valid_refs") is not None else None
